@@ -204,7 +204,11 @@ class Report:
         out_lines = []
         violations = 0
         seen_known = set()
+        reported = set()
         for f in self.findings:
+            if f.signature in reported:
+                continue
+            reported.add(f.signature)
             k = f.known_entry(known)
             if k is not None:
                 if k["signature"] not in seen_known:
